@@ -118,8 +118,18 @@ def rel(out, p):
     return os.path.relpath(p, o) if p.startswith(o + os.sep) else "OUTSIDE:" + p
 
 
-def run_call(gen, fcp_or_text, out, via):
-    """one generate call -> observation dict"""
+def returned_files(gen, fcp):
+    """what the plug-in returns for this schema (a dry run that writes nothing): {relative name: contents}"""
+    import importlib
+    try:
+        res = importlib.import_module("fcp_" + gen).Generator().generate(fcp, {"output": "DRYRUN", "templates": {}, "skels": {}})
+        return {os.path.basename(str(r.get("path"))): str(r.get("contents")) for r in res if isinstance(r, dict) and r.get("type") == "file"}
+    except Exception:
+        return {}
+
+
+def run_call(gen, fcp_or_text, out, via, manager=None):
+    """one generate call -> observation dict (manager: reuse this GeneratorManager instead of a fresh one)"""
     from fcp.codegen import GeneratorManager
     from fcp.verifier import make_general_verifier
     events, captured = [], {}
@@ -130,7 +140,8 @@ def run_call(gen, fcp_or_text, out, via):
             if via == "api":
                 buf = io.StringIO()
                 with contextlib.redirect_stdout(buf):
-                    r = GeneratorManager(make_general_verifier()).generate(gen, None, None, fcp_or_text, out)
+                    mgr = manager if manager is not None else GeneratorManager(make_general_verifier())
+                    r = mgr.generate(gen, None, None, fcp_or_text, out)
                 try:
                     ret = "Ok" if r.is_ok() else "Err"
                 except Exception:
@@ -215,12 +226,35 @@ def run_c10(tier, seed, pid="C10"):
     nrand = 150 if tier == "quick" else 2500
     for _ in range(nrand):
         scenarios.append((rng.choice(GENS), rand_tree(rng), rng.choice(DIR_STATES), "api"))
+    # a pre-existing file that starts with exactly what the plug-in returns and continues with a stale tail
+    good = [o["tree"] for o in trees if o["dbc"] == 1 and o["can_c"] == 1 and any(im["protocol"] == "can" for im in o["tree"]["impls"])]
+    for t in rng.sample(good, min(10 if tier == "quick" else 80, len(good))):
+        for g in ("dbc", "can_c"):
+            scenarios.append((g, t, "superset", "api"))
+    # one manager used twice with different plug-ins: (first generator, second generator, tree of the second call)
+    only_dbc = [o["tree"] for o in trees if o["general"] == 1 and o["dbc"] == 0 and o["can_c"] == 1]
+    only_c = [o["tree"] for o in trees if o["general"] == 1 and o["can_c"] == 0 and o["dbc"] == 1]
+    both_ok = [o["tree"] for o in trees if o["dbc"] == 1 and o["can_c"] == 1]
+    pairs = []
+    npair = 6 if tier == "quick" else 40
+    for g1, g2, pool in (("nop", "dbc", only_dbc), ("cpp", "can_c", only_c), ("can_c", "dbc", only_dbc), ("dbc", "can_c", only_c),
+                         ("dbc", "nop", only_dbc), ("can_c", "cpp", only_c), ("nop", "dbc", both_ok), ("dbc", "can_c", both_ok)):
+        for t2 in rng.sample(pool, min(npair, len(pool))):
+            pairs.append((g1, g2, rng.choice(both_ok), t2))
+    chk.notes["manager_reuse_pairs"] = len(pairs)
     chk.notes["scenarios"] = len(scenarios)
     chk.notes["fault_groups"] = len(groups)
     traces, meta = [], {}
     out = os.path.join(chk.workdir, "out")
     for i, (gen, tree, ds, via) in enumerate(scenarios):
-        prepare_dir(out, ds, gen)
+        if ds == "superset":
+            prepare_dir(out, "unrelated", gen)
+            for name, contents in returned_files(gen, build.mk_fcp(tree)).items():
+                with open(os.path.join(out, name), "w") as f:
+                    f.write(contents + "\n/* stale tail left over from an earlier, longer output */\n")
+                os.utime(os.path.join(out, name), ns=(10 ** 18, 10 ** 18))
+        else:
+            prepare_dir(out, ds, gen)
         if via == "cli":
             try:
                 text = glue.schema_text(tree)
@@ -237,9 +271,22 @@ def run_c10(tier, seed, pid="C10"):
         else:
             obs = run_call(gen, build.mk_fcp(tree), out, "api")
         tid = "s%d" % i
-        traces.append({"id": tid, "gen": gen, "tree": tree, "fs0": fs_json(obs["fs0"]), "fs1": fs_json(obs["fs1"]),
+        traces.append({"id": tid, "gen": gen, "registered": [gen], "tree": tree, "fs0": fs_json(obs["fs0"]), "fs1": fs_json(obs["fs1"]),
                        "events": obs["events"], "ret": obs["ret"], "files": obs["files"]})
         meta[tid] = (gen, tree, ds, via, obs)
+    from fcp.codegen import GeneratorManager
+    from fcp.verifier import make_general_verifier
+    for i, (g1, g2, t1, t2) in enumerate(pairs):
+        mgr = GeneratorManager(make_general_verifier())
+        reg = []
+        for k, (g, t) in enumerate(((g1, t1), (g2, t2))):
+            prepare_dir(out, "unrelated", g)
+            obs = run_call(g, build.mk_fcp(t), out, "api", manager=mgr)
+            reg = reg + [g]
+            tid = "m%d-%d" % (i, k)
+            traces.append({"id": tid, "gen": g, "registered": list(reg), "tree": t, "fs0": fs_json(obs["fs0"]), "fs1": fs_json(obs["fs1"]),
+                           "events": obs["events"], "ret": obs["ret"], "files": obs["files"]})
+            meta[tid] = (g, t, "unrelated/manager-reused-after-%s" % g1 if k else "unrelated", "api", obs)
     shutil.rmtree(out, ignore_errors=True)
     # canaries
     cans = []
